@@ -326,6 +326,18 @@ func (s *Sim) violate(prop, clause, shape, format string, a ...any) {
 	s.Viols = append(s.Viols, v)
 }
 
+func (s *Sim) violateAt(prop, clause, shape string, step int, format string, a ...any) {
+	s.mu.Lock()
+	defer s.mu.Unlock()
+	v := Violation{Prop: prop, Clause: clause, Shape: shape, Msg: s.canonLocked(fmt.Sprintf(format, a...)), Step: step}
+	for _, o := range s.Viols {
+		if o.Key() == v.Key() {
+			return
+		}
+	}
+	s.Viols = append(s.Viols, v)
+}
+
 func (s *Sim) probe(name string) {
 	s.mu.Lock()
 	s.Probes[name]++
